@@ -32,6 +32,11 @@ func newEffects() *effects {
 // to in-package static callees (whose own effects then account for it).
 func directEffects(fn *ssa.Function) *effects {
 	e := newEffects()
+	// addresses parked in a literal table that a loop only stores through are plain writes
+	slotWrites := map[*ssa.Store][]ssa.Instruction{}
+	for _, vs := range tableStores(fn) {
+		slotWrites[vs.Slot] = append(slotWrites[vs.Slot], vs.Store)
+	}
 	eachInstr(fn, func(i ssa.Instruction) {
 		switch x := i.(type) {
 		case *ssa.FieldAddr:
@@ -45,6 +50,8 @@ func directEffects(fn *ssa.Function) *effects {
 				case *ssa.Store:
 					if y.Addr == ssa.Value(x) {
 						e.writes[k] = append(e.writes[k], y)
+					} else if ws := slotWrites[y]; len(ws) > 0 {
+						e.writes[k] = append(e.writes[k], ws...)
 					} else {
 						e.reads[k] = append(e.reads[k], y) // address stored somewhere: treat as read+write
 						e.writes[k] = append(e.writes[k], y)
